@@ -62,6 +62,9 @@ impl Fold<TextRange> for Erase {
 
 fuzz_target!(|data: &[u8]| {
     let Some(inp) = common::decode(data) else { return };
+    if common::too_deep(&inp.text) {
+        return;
+    }
     let Ok(e) = ast::Expr::parse(&inp.text, "<fuzz>") else { return };
     let text = format!("{}", e);
     let mut er = Erase::default();
